@@ -3,10 +3,12 @@ package baseorbitdb
 import (
 	"context"
 	"encoding/json"
+	"fmt"
 
 	ipfslog "berty.tech/go-ipfs-log"
 	"berty.tech/go-ipfs-log/entry"
 	idp "berty.tech/go-ipfs-log/identityprovider"
+	odbaddress "berty.tech/go-orbit-db/address"
 	"berty.tech/go-orbit-db/cache/cacheleveldown"
 	"berty.tech/go-orbit-db/iface"
 	"berty.tech/go-orbit-db/internal/vstub"
@@ -19,6 +21,7 @@ import (
 
 	acipfs "berty.tech/go-orbit-db/accesscontroller/ipfs"
 	acsimple "berty.tech/go-orbit-db/accesscontroller/simple"
+	coreiface "github.com/ipfs/kubo/core/coreiface"
 	"github.com/libp2p/go-libp2p/core/peer"
 )
 
@@ -484,7 +487,25 @@ func VerifSysMalformed() {
 		vstub.Cover("ill-typed")
 	case 2:
 		var address string
-		switch vstub.NdChoice("address", 5) {
+		switch vstub.NdChoice("address", 6) {
+		case 5:
+			// the address of a database whose OPEN FAILED on b (its store constructor
+			// returned an error): it is not open, messages for it are to be dropped
+			b.o.RegisterStoreType("broken", func(coreiface.CoreAPI, *idp.Identity, odbaddress.Address, *iface.NewStoreOptions) (iface.Store, error) {
+				return nil, fmt.Errorf("constructor failed")
+			})
+			bopts := &CreateDBOptions{AccessController: acParams([]string{"*"}), IO: b.env.IO}
+			if _, cerr := b.o.Create(context.Background(), "dbX", "broken", bopts); cerr == nil {
+				vstub.Fail("sys: the open was meant to fail")
+				return
+			}
+			ax, derr := b.o.DetermineAddress(context.Background(), "dbX", "broken", &DetermineAddressOptions{AccessController: acParams([]string{"*"})})
+			if derr != nil {
+				vstub.Fail("sys: DetermineAddress failed")
+				return
+			}
+			address = ax.String()
+			vstub.Cover("address-of-a-failed-open")
 		case 0:
 			address = addrA
 		case 1:
